@@ -1,6 +1,6 @@
 (** Extraction of the executable model for the correspondence driver.
     ExtrOcamlBasic only; N and Z stay the extracted inductives. *)
-Require Import Base Kinds GenUnionTable Schema Varint Utf8 Sval Ser Rabin CrcSpec Text CanonicalForm.
+Require Import Base Kinds GenUnionTable Schema Varint Utf8 Sval Ser Rabin CrcSpec Text CanonicalForm Target Reader De VectoredWrite.
 Require Extraction.
 Require Import ExtrOcamlBasic.
 Extraction Language OCaml.
@@ -12,4 +12,6 @@ Separate Extraction
   Sval.int_in_type
   Varint.decode_var Varint.encode_long
   Rabin.rabin Rabin.rabin_finish CrcSpec.crc64_avro CrcSpec.le64
-  CanonicalForm.canonical_form CanonicalForm.fingerprint.
+  CanonicalForm.canonical_form CanonicalForm.fingerprint
+  De.de_datum De.cfg_default Reader.slice_reader Reader.chunked_reader
+  VectoredWrite.write_all_vectored.
